@@ -122,7 +122,7 @@ fn valid_responses(seed: u64, per_kind: usize, max_lit: usize) -> Vec<Vec<u8>> {
                 max_depth: 2,
                 adversarial: round % 2 == 1,
                 max_str: 10,
-                max_lit: if round % 6 == 5 { max_lit } else { 30 },
+                max_lit: if round % 3 == 2 { max_lit } else { 30 },
             };
             let r = std::panic::catch_unwind(|| {
                 let mut rng = Rng::new(seed.wrapping_mul(7919).wrapping_add((round * 1000 + k) as u64));
@@ -140,6 +140,18 @@ fn valid_responses(seed: u64, per_kind: usize, max_lit: usize) -> Vec<Vec<u8>> {
                 v.push(b);
             }
         }
+    }
+    // responses with sizeable literals (message bodies), of several sizes
+    for (i, n) in [100usize, 150, 300, 1000, 5000, 9000].iter().enumerate() {
+        let body: Vec<u8> = (0..*n).map(|k| b"abcdefghij\r\n()\"{}"[(k + i) % 17]).collect();
+        let mut r = format!("* {} FETCH (UID {} BODY[] {{{}}}\r\n", i + 1, i + 7, n).into_bytes();
+        r.extend_from_slice(&body);
+        r.extend_from_slice(b" FLAGS (\\Seen))\r\n");
+        v.push(r);
+        let mut r = format!("* {} FETCH (RFC822.HEADER {{{}}}\r\n", i + 1, n).into_bytes();
+        r.extend_from_slice(&body);
+        r.extend_from_slice(b")\r\n");
+        v.push(r);
     }
     v.retain(|b| matches!(Response::from_bytes(b), Ok((rest, _)) if rest.is_empty()));
     v
@@ -376,6 +388,26 @@ fn run_frames_case(ctx: &mut Ctx, stream: &[u8], rscript: Vec<RDir>, eof_at_end:
     ctx.queue(op, imp);
 }
 
+/// does the response announce a literal of at least 100 bytes?
+fn has_big_literal(r: &[u8]) -> bool {
+    let mut i = 0;
+    while i < r.len() {
+        if r[i] == b'{' {
+            let mut j = i + 1;
+            let mut n: usize = 0;
+            while j < r.len() && r[j].is_ascii_digit() && j - i < 9 {
+                n = n * 10 + (r[j] - b'0') as usize;
+                j += 1;
+            }
+            if j < r.len() && r[j] == b'}' && j > i + 1 && n >= 100 {
+                return true;
+            }
+        }
+        i += 1;
+    }
+    false
+}
+
 fn make_stream(rng: &mut Rng, resp: &[Vec<u8>]) -> (Vec<u8>, Vec<usize>) {
     let n = rng.range(1, 12) as usize;
     let mut s = vec![];
@@ -429,6 +461,62 @@ fn run_c04(ctx: &mut Ctx, rng: &mut Rng, resp: &[Vec<u8>], thorough: bool, shard
                 }
                 run_frames_case(ctx, &s, sc, eof, "2cut-exhaustive");
             }
+        }
+    }
+    // (2b) cuts aligned with response boundaries plus a few interior cuts (a read that ends exactly
+    // at the end of a response is the shape in which per-frame bookkeeping goes stale)
+    let n2b = if thorough { 60_000 } else { 6_000 } / shards;
+    for _ in 0..n2b {
+        let (s, bounds) = make_stream(rng, resp);
+        let mut cuts: Vec<usize> = bounds.iter().copied().filter(|b| *b <= s.len() && rng.chance(2, 3)).collect();
+        let extra = rng.usize(3);
+        for _ in 0..extra {
+            cuts.push(rng.usize(s.len() + 1));
+        }
+        cuts.sort();
+        cuts.dedup();
+        let mut sc = vec![];
+        let mut prev = 0;
+        for c in cuts {
+            if c > prev {
+                sc.push(RDir::Go(c - prev));
+                prev = c;
+            }
+            if rng.chance(1, 8) {
+                sc.push(RDir::Pending);
+            }
+        }
+        run_frames_case(ctx, &s, sc, rng.bool(), "boundary-aligned");
+    }
+    // (2c) a response carrying a sizeable literal, cut inside the literal and again exactly at its
+    // end, followed by short responses: the shape in which a remembered "bytes needed" goes stale
+    let big: Vec<&Vec<u8>> = resp.iter().filter(|r| has_big_literal(r)).collect();
+    if !big.is_empty() {
+        let n2c = if thorough { 20_000 } else { 3_000 } / shards;
+        for _ in 0..n2c {
+            let first: &Vec<u8> = *rng.pick(&big);
+            let mut s = first.clone();
+            let k = rng.range(1, 3);
+            for _ in 0..k {
+                let e: &Vec<u8> = rng.pick(resp);
+                if e.len() < 80 {
+                    s.extend_from_slice(e);
+                }
+            }
+            let end = first.len();
+            let cut = rng.usize(end);
+            let mut sc = vec![];
+            if cut > 0 {
+                sc.push(RDir::Go(cut));
+            }
+            if rng.chance(1, 4) {
+                sc.push(RDir::Pending);
+            }
+            sc.push(RDir::Go(end - cut));
+            if rng.chance(1, 2) {
+                sc.push(RDir::Go(1 + rng.usize(40)));
+            }
+            run_frames_case(ctx, &s, sc, rng.bool(), "literal-then-short");
         }
     }
     // (3) random schedules
